@@ -538,12 +538,13 @@ def observers(model: Model) -> List[FunctionInfo]:
     return [f for f in out if f is not None]
 
 
-def h2(model: Model, rep: Report, cg: CallGraph, ef: Effects):
-    rep.rule("C03.H2", "the transitive write set of every public observer (listing, times, duration, acquisition indices, exporters, drawing), "
+def h2(model: Model, rep: Report, cg: CallGraph, ef: Effects, obs: Optional[List[FunctionInfo]] = None, rule: str = "C03.H2", text: Optional[str] = None, keep=None):
+    rep.rule(rule, text or "the transitive write set of every public observer (listing, times, duration, acquisition indices, exporters, drawing), "
                        "minus objects created during the call, process bookkeeping (id counters, singletons) and the override rebinding "
                        "certified by H3, is empty")
-    obs = observers(model)
-    rep.floor("observer entry points", len(obs), 25)
+    if obs is None:
+        obs = observers(model)
+        rep.floor("observer entry points", len(obs), 25)
     seen: Set[Tuple[str, str]] = set()
     n_fn = set()
     for o in obs:
@@ -555,6 +556,8 @@ def h2(model: Model, rep: Report, cg: CallGraph, ef: Effects):
                 continue
             if w.fn.name in ("__init__", "__post_init__"):
                 continue  # constructs a new object
+            if keep is not None and not keep(w):
+                continue
             if w.receiver == "self" and path and _fresh_self(cg, path):
                 continue
             # a write inside a private helper belongs to the public method it was extracted from
@@ -573,14 +576,14 @@ def h2(model: Model, rep: Report, cg: CallGraph, ef: Effects):
             if key in seen:
                 continue
             seen.add(key)
-            rep.fail("C03.H2", f"{owner.qualname}[writes {w.attr}]", w.loc, found=f"{norm_stmt(w.node)}  (reached from {o.qualname} via {' -> '.join(x.qualname for x in path)})",
+            rep.fail(rule, f"{owner.qualname}[writes {w.attr}]", w.loc, found=f"{norm_stmt(w.node)}  (reached from {o.qualname} via {' -> '.join(x.qualname for x in path)})",
                      required="observers leave circuit state untouched", what=f"an observation rewrites '{w.attr}' of an existing object: later answers depend on whether it was made",
                      detail=f"{w.attr}")
     if not seen:
-        rep.ok("C03.H2", "observers[write-set]", obs[0].loc, found=f"no circuit-state write reachable from {len(obs)} observers", required="empty")
+        rep.ok(rule, "observers[write-set]", obs[0].loc, found=f"no circuit-state write reachable from {len(obs)} observers", required="empty")
     else:
-        rep.ok("C03.H2", "observers[analysed]", obs[0].loc, found=f"{len(obs)} observers analysed", required="analysed")
-    rep.analysed["C03.H2 observers"] = [o.qualname for o in obs]
+        rep.ok(rule, "observers[analysed]", obs[0].loc, found=f"{len(obs)} observers analysed", required="analysed")
+    rep.analysed[f"{rule} observers"] = [o.qualname for o in obs]
 
 
 def _fresh_self(cg: CallGraph, path: List[FunctionInfo]) -> bool:
